@@ -15,10 +15,20 @@ tie to code: real programs through Generator -> TypeErasure -> TypeOverwriting
              (c) the message must be `errorMessage old new node_id` of the model (`pyStr` = the
                  `__str__` of the real classes), old/new being the types found by the DIFF, and the
                  node id must name the declaration / instantiated class at the site;
-             (d) the mutant must be rejected: by the verified checker (driver op "check.wt", used
-                 only if it exists) and, for Java, by javac on the real translation. An accepted
-                 mutant is classified by SHAPE (site kind, kinds of old/new type); the shapes of
-                 the design findings 10 and 11 are known findings, any other shape exits 1.
+             (d) the mutant must be rejected: by the verified judge (driver op "mut.wt": the checker of
+                 C01 plus the strict reading of bottom constants of Model/Overwrite.lean, on the input
+                 AND on the mutant, all four languages; rejected = an obligation fails that the input
+                 does not fail; a verdict that cannot be obtained is a harness error) and, for Java, by
+                 javac on the real translation (for Java javac decides, the checker's verdict is
+                 tallied beside it). An accepted mutant is classified by SHAPE (site kind, kinds of
+                 old/new type); the shapes of the design findings 10 and 11 are known findings, any
+                 other shape exits 1.
+streams    : (1) str(); (2) STRUCTURED: harness/c04_families.py, 55 hand-built program families x 4
+             languages (site kinds x type shapes: classes, built-ins, primitives/boxes, bounded and
+             unbounded type parameters, constructor type arguments with phantom parameters, variance
+             with top-type arguments, nested instantiations, generic calls, generic subclasses), plain
+             and erased, under a grid of forced first draws of the mutation + free seeds, equal
+             outcomes judged once; (3) corpus; (4) random generator programs.
 """
 import json
 import os
@@ -252,6 +262,27 @@ def make_specs(run, n, langs=LANGS, cap=60, base=None):
     return specs
 
 
+def wt_request(export):
+    """the request of the verified judge of a mutant: the checker of C01 (`checkProgram`, needs the language's table
+    of built-ins "bt") plus the strict reading of bottom constants (op `mut.wt`, Model/Overwrite.lean)"""
+    import check_C01 as c1
+    rq = c1.add_bt(export)
+    rq["op"] = "mut.wt"
+    return rq
+
+
+def wt_failures(a):
+    """the failing obligations as a set of (path, tag, detail)"""
+    return {(json.dumps(f[0]), f[1], f[2]) for f in a["r"]["fail"]}
+
+
+def skey(spec):
+    """what replays a case: a pipeline spec or a family spec"""
+    if "family" in spec:
+        return {k: spec.get(k) for k in ("family", "lang", "seed", "erase", "force")}
+    return c3.spec_key(spec)
+
+
 def program_requests(r, have_checker):
     er, ow = r["stages"]["erase"], r["stages"]["overwrite"]
     t = tables()
@@ -264,8 +295,8 @@ def program_requests(r, have_checker):
         reqs.append({"op": "mut.unrelated", "tt": rec["tt"], "a": rec["old"], "b": rec["new"], "extra": t["extra"]})
     n_model = len(reqs)
     if have_checker:
-        reqs.append({"op": "check.wt", **ow["export"]})
-        reqs.append({"op": "check.wt", **er["export"]})
+        reqs.append(wt_request(ow["export"]))
+        reqs.append(wt_request(er["export"]))
     return reqs, n_model
 
 
@@ -313,7 +344,7 @@ def judge(run, r, w, jres, have_checker):
         raise common.HarnessError("mut.overwrite_diff: " + a["error"])
     m = a["r"]
     injected = bool(ow.get("is_transformed"))
-    where = {"spec": spec_key(spec)}
+    where = {"spec": skey(spec)}
     diffs = py_overwrite_diff(er["export"], ow["export"])
     ref = py_site(er["export"], ow["export"], diffs)
     model_site = "none" if m == "none" else (m["site"] if isinstance(m, dict) and "site" in m else None)
@@ -321,7 +352,7 @@ def judge(run, r, w, jres, have_checker):
     text_changed = er["texts"][lang] != ow["texts"][lang]
     run.tally("mutation", ("injected" if injected else "not-injected") + ("/text-changed" if text_changed else "/text-same"))
     run.count({"lang": lang, "injected": injected, "site": None if not isinstance(model_site, list) else model_site[1][0],
-               "spec": spec_key(spec)}, nontrivial=injected)
+               "spec": skey(spec)}, nontrivial=injected)
 
     # model against the independent walk
     if json.dumps(model_site) != json.dumps(ref):
@@ -359,7 +390,7 @@ def judge(run, r, w, jres, have_checker):
     rel_model = m["rel"]["rel"]
     run.tally("unrelated(model)", str(m["rel"]["unrelated"]))
     if rec is None or "rel_impl" not in rec:
-        raise common.HarnessError("plugin_tda recorded no overwrite although an error was injected: %r" % (spec_key(spec),))
+        raise common.HarnessError("plugin_tda recorded no overwrite although an error was injected: %r" % (skey(spec),))
     rel_impl = [norm(x) for x in rec["rel_impl"]]
     # the types of the DIFF must be the types the mutation handled
     if m["old_str"] != rec["old_str"] or m["new_str"] != rec["new_str"]:
@@ -401,23 +432,38 @@ def judge(run, r, w, jres, have_checker):
     if nm is None or not isinstance(nid, str) or nid.rsplit("/", 1)[-1] != nm:
         c3.report(run, dict(where, what="node id in the message does not name the mutated node", node_id=nid,
                            name_at_site=nm, site=site), signature="C04:injected:message-names-other-node")
-    # (d) rejected
+    # (d) rejected: the verified judge (checker of C01 + strict bottom constants) on the input and on the mutant.
+    # The mutant counts as rejected when it has a failing obligation its input does not have.
+    checker_accepts = None
     if have_checker:
         a_o, a_e = w["answers"][w["n_model"]], w["answers"][w["n_model"] + 1]
         if "error" in a_o or "error" in a_e:
-            run.tally("check.wt", "driver-error")
-        else:
-            ok_o, ok_e = c3.wt_ok(a_o), c3.wt_ok(a_e)
-            run.tally("check.wt", "%s/%s" % ("input-ok" if ok_e else "input-rejected", "mutant-ok" if ok_o else "mutant-rejected"))
-            if ok_e and ok_o:
-                c3.report(run, dict(where, what="mutant accepted by check.wt", site=site, old=rec["old_str"], new=rec["new_str"]),
-                              signature="C04:check.wt:" + accepted_shape(lang, site, m, True))
+            # a verdict that cannot be obtained is a failure of the machinery, never silently "not judged"
+            raise common.HarnessError("mut.wt: %s (%r)" % (a_o.get("error") or a_e.get("error"), skey(spec)))
+        new_fail = wt_failures(a_o) - wt_failures(a_e)
+        checker_accepts = not new_fail
+        run.tally("mut.wt", "%s/%s" % ("input-ok" if a_e["r"]["ok"] else ("input-strict-only" if a_e["r"]["lenient"] else "input-rejected"),
+                                       "mutant-ok" if checker_accepts else "mutant-rejected"))
+        if not checker_accepts:
+            strict_only = all(f[4] for f in a_o["r"]["fail"] if (json.dumps(f[0]), f[1], f[2]) in new_fail)
+            run.tally("mutant_rejected_by", "strict-bottom-rule-only" if strict_only else
+                      sorted({t for _, t, _ in new_fail})[0].split("/")[0])
+        elif lang != "java":
+            sig = accepted_shape(lang, site, m, text_changed)
+            run.tally("accepted_shapes", sig)
+            run.tally("accepted_detail", "%s:%s->%s" % (site[1][0], rec["old_str"], rec["new_str"]))
+            c3.report(run, dict(where, what="mutant accepted by the verified checker (mut.wt): no obligation fails that "
+                               "the input does not fail already", site=site, old=rec["old_str"], new=rec["new_str"],
+                               message=ow.get("error_injected")), signature="C04:" + sig)
     if jres is not None:
         (rc_e, out_e), (rc_o, out_o) = jres
         run.tally("javac", "%s/%s%s" % ("input-ok" if rc_e == 0 else "input-rejected",
                                        "mutant-ok" if rc_o == 0 else "mutant-rejected",
                                        "" if text_changed else "(same text)"))
-        run.count({"javac": [rc_e == 0, rc_o == 0], "spec": spec_key(spec)})
+        run.count({"javac": [rc_e == 0, rc_o == 0], "spec": skey(spec)})
+        if checker_accepts is not None:
+            run.tally("checker_vs_javac", "checker-%s/javac-%s" % ("accepts" if checker_accepts else "rejects",
+                                                                   "accepts" if rc_o == 0 else "rejects"))
         if rc_e == 0 and rc_o == 0:
             sig = accepted_shape(lang, site, m, text_changed, er["export"])
             run.tally("accepted_shapes", sig)
@@ -459,7 +505,7 @@ def run_all(run, specs, budget_s, threads=3, batch_size=8, batch_wait=12):
             if "exception" in r:
                 run.tally("pipeline", "exception:" + r["exception"]["type"])
                 if len(run.cov.setdefault("pipeline_exceptions", [])) < 8:
-                    run.cov["pipeline_exceptions"].append({"spec": spec_key(r["spec"]), "exception": {
+                    run.cov["pipeline_exceptions"].append({"spec": skey(r["spec"]), "exception": {
                         k: str(v)[:300] for k, v in r["exception"].items() if k != "traceback"},
                         "stages_done": sorted(r.get("stages", {}))})
             elif "overwrite" not in r["stages"]:
@@ -484,6 +530,79 @@ def run_all(run, specs, budget_s, threads=3, batch_size=8, batch_wait=12):
     run.log("%d programs checked at %.0fs" % (n, time.time() - t0))
     if not run.cov.get("pipeline", {}).get("ok"):
         raise common.HarnessError("no program went through the pipeline within the budget (%d results)" % n)
+
+
+# ------------------------------------------------------------------ structured stream: hand-built families
+def family_group(name):
+    return name.split("_")[0] if name.startswith("phantom") else name
+
+
+def family_stream(run, langs, families=None, specs=None):
+    """hand-built programs (harness/c04_families.py) x forced / seeded RNG states through the real
+    TypeOverwriting; equal outcomes (same mutant, same report) are judged once, every run is counted"""
+    import hashlib
+    import c04_families as F
+    t0 = time.time()
+    have_checker = c3.checker_available()
+    if specs is None:
+        specs = F.specs(run.rng, run.tier, langs=langs, families=families)
+    results = F.run_many(specs)
+    run.cov["family_time_runs_s"] = round(time.time() - t0, 1)
+    uniq, order = {}, []
+    for r in results:
+        sp = r["spec"]
+        grp = family_group(sp["family"])
+        if "exception" in r:
+            run.tally("family_pipeline", "exception:" + r["exception"]["type"])
+            if len(run.cov.setdefault("family_exceptions", [])) < 8:
+                run.cov["family_exceptions"].append({"spec": skey(sp), "exception": {
+                    k: str(v)[:300] for k, v in r["exception"].items() if k != "traceback"}})
+            continue
+        if "overwrite" not in r.get("stages", {}):
+            run.tally("family_pipeline", "cutoff:" + str(r.get("cutoff")))
+            continue
+        p = r.get("plugins", {}).get("plugin_tda", {})
+        if "error" in p:
+            raise common.HarnessError("plugin_tda failed: " + p["error"])
+        run.tally("family_pipeline", "ok")
+        ow = r["stages"]["overwrite"]
+        rec = p.get("overwrite") or {}
+        run.tally("family_runs", "%s:%s" % (grp, "erased" if sp.get("erase") else "plain"))
+        run.tally("family_runs_by_lang", "%s:%s" % (sp["lang"], "injected" if ow.get("is_transformed") else "not-injected"))
+        chosen = rec.get("chosen") or {}
+        run.tally("family_chosen_node", "%s:%s" % (sp["lang"], chosen.get("k")))
+        key = hashlib.sha1(json.dumps([sp["lang"], sp["family"], bool(sp.get("erase")), ow["export"], ow.get("is_transformed"),
+                                       ow.get("error_injected"), rec.get("old_str"), rec.get("new_str"), chosen,
+                                       rec.get("tparam"), rec.get("rel_impl"), rec.get("pick")],
+                                      sort_keys=True, default=str).encode()).hexdigest()
+        run.count({"family": sp["family"], "lang": sp["lang"], "erase": bool(sp.get("erase")), "outcome": key[:12]},
+                  nontrivial=bool(ow.get("is_transformed")))
+        if key not in uniq:
+            uniq[key] = r
+            order.append(key)
+            if ow.get("is_transformed"):
+                d = run.cov.setdefault("family_distinct_injections", {})
+                d[grp + ":" + sp["lang"]] = d.get(grp + ":" + sp["lang"], 0) + 1
+    batch = [uniq[k] for k in order]
+    run.cov["family_runs_total"] = len(results)
+    run.cov["family_distinct_outcomes"] = len(batch)
+    if not batch:
+        raise common.HarnessError("no hand-built program went through TypeOverwriting")
+    shards = [batch[i::6] for i in range(6) if batch[i::6]]
+    with ThreadPoolExecutor(len(shards) + 1) as ex:
+        fj = ex.submit(batch_javac, batch)
+        fms = [ex.submit(batch_model, sh, have_checker) for sh in shards]
+        ws = [None] * len(batch)
+        for i, f in enumerate(fms):
+            out, tm = f.result()
+            c3.add_time(run, "time_model_s", tm)
+            ws[i::6] = out
+        js, tj = fj.result()
+        c3.add_time(run, "time_javac_s", tj)
+    for r, w, jres in zip(batch, ws, js):
+        judge(run, r, w, jres, have_checker)
+    run.cov["family_time_s"] = round(time.time() - t0, 1)
+    run.log("families: %d runs, %d distinct outcomes judged at %.0fs" % (len(results), len(batch), time.time() - t0))
 
 
 def str_stream(run):
@@ -543,9 +662,12 @@ def check(run):
         for f in sorted(os.listdir(corpus)):
             specs.append(json.load(open(os.path.join(corpus, f)))["spec"])
     langs = tuple(os.environ.get("C04_LANGS", ",".join(LANGS)).split(","))
+    fams = os.environ.get("C04_FAMILIES")
+    if fams != "none":
+        family_stream(run, langs, families=fams.split(",") if fams else None)
     if run.tier == "quick":
-        specs += make_specs(run, int(os.environ.get("C04_N", "100")), langs=langs, cap=40)
-        run_all(run, specs, budget_s=int(os.environ.get("C04_BUDGET", "90")))
+        specs += make_specs(run, int(os.environ.get("C04_N", "40")), langs=langs, cap=40)
+        run_all(run, specs, budget_s=int(os.environ.get("C04_BUDGET", "45")))
     else:
         specs += make_specs(run, int(os.environ.get("C04_N", "4000")), langs=langs, cap=60)
         run_all(run, specs, budget_s=int(os.environ.get("C04_BUDGET", "1300")))
@@ -553,6 +675,10 @@ def check(run):
 
 def replay(run, rp):
     run.build_and_audit()
+    if "family" in rp.get("spec", {}):
+        run.cov["rule"] = "replay of one hand-built program under one forced / seeded RNG state"
+        family_stream(run, LANGS, specs=[dict(rp["spec"])])
+        return
     spec = dict(rp["spec"])
     spec.update({"export": True, "translate": [spec["lang"]], "cap": 300,
                  "plugins": ["plugin_tda"], "erasure_options": {}})
